@@ -564,16 +564,38 @@ def add_mul_wallace(
 
         c = cn
 
-    labels_a = []
-    labels_b = []
+    zero: list[gate.Label] = []
+
+    def _zero() -> gate.Label:
+        if not zero:
+            zero.append(
+                add_gate_from_tt(circuit, input_labels_a[0], input_labels_a[0], '0000')
+            )
+        return zero[0]
+
+    # Empty positions between two occupied columns of a row must stay empty
+    # (zero) bits of the number; only leading gaps of the second row are
+    # expressed by the shift and trailing gaps are dropped.
+    labels_a: list[gate.Label] = []
+    labels_b: list[gate.Label] = []
     shift = 0
+    gap_a = 0
+    gap_b = 0
     for i in range(n + m):
         if c[i][0] != PLACEHOLDER_STR:
+            labels_a.extend([_zero()] * gap_a)
+            gap_a = 0
             labels_a.append(c[i][0])
+        else:
+            gap_a += 1
         if c[i][1] != PLACEHOLDER_STR:
+            labels_b.extend([_zero()] * gap_b)
+            gap_b = 0
             labels_b.append(c[i][1])
         elif len(labels_b) == 0:
             shift += 1
+        else:
+            gap_b += 1
 
     return reverse_if_big_endian(
         add_sum_two_numbers_with_shift(circuit, shift, labels_a, labels_b)[: n + m],
